@@ -259,6 +259,7 @@ static bool gvt_node_phase_run(void)
 			node_phase = node_done;
 			return true;
 		case node_done:
+			VERIF_TRACE(VT_NODE, 6, 0, 0, 0);
 			node_phase = node_phase_redux_first;
 			thread_phase = thread_phase_idle;
 			if(atomic_fetch_sub_explicit(&c_d, 1U, memory_order_relaxed) == 1)
